@@ -1043,3 +1043,7 @@ Proof.
     unfold scores_of. apply nth_error_In in Hn. apply (in_map (fun e => score_of (e_trial e))) in Hn. exact Hn.
   - exact Logic.I.
 Qed.
+
+(* the default pre_dispatch keeps more trials in flight than there are workers *)
+Lemma pre_dispatch_exceeds_workers nw : nw + 4 <= pre_dispatch_of nw.
+Proof. unfold pre_dispatch_of. apply Nat.le_max_l. Qed.
